@@ -142,7 +142,7 @@ let check_str abc fields obs =
            | None -> ())
     end) toks;
   if not !seen_ts then set_diff "no ts observation";
-  if List.length toks < 20 then set_diff "too few observations";
+  if List.length toks < 12 then set_diff "too few observations";
   !verdict
 
 let show_res_sym (r : sym res) = match r with
